@@ -238,9 +238,9 @@ Lemma read_keys_reads fuel : forall cnt s ks s', ok s -> read_keys pk_parse fuel
 Proof.
   induction fuel as [|f IH]; intros cnt s ks s' Hok E.
   - cbn [read_keys] in E. destruct (cnt =? 0) eqn:Z; [|discriminate].
-    inversion E; subst. apply N.eqb_eq in Z. subst. repeat split; auto; try constructor. apply reads_refl; exact Hok.
+    inversion E; subst. apply N.eqb_eq in Z. subst. (split; [apply reads_refl; exact Hok|]); repeat split; auto; try constructor.
   - cbn [read_keys] in E. destruct (cnt =? 0) eqn:Z.
-    { inversion E; subst. apply N.eqb_eq in Z. subst. repeat split; auto; try constructor. apply reads_refl; exact Hok. }
+    { inversion E; subst. apply N.eqb_eq in Z. subst. (split; [apply reads_refl; exact Hok|]); repeat split; auto; try constructor. }
     apply N.eqb_neq in Z.
     destruct (next_varbytes s) as [[[[d sz] irr] e] s1] eqn:EV.
     destruct e; [discriminate|]. destruct irr; [discriminate|].
@@ -249,7 +249,7 @@ Proof.
     inversion E; subst; clear E.
     destruct (varbytes_reads _ _ _ _ Hok EV) as [R1 _].
     destruct (IH _ _ _ _ (reads_ok _ _ _ Hok R1) ER) as (R2 & L2 & F2).
-    cbn [map fst flat_map length]. repeat split.
+    cbn [map fst flat_map length]. split; [|split].
     + eapply reads_trans; eassumption.
     + lia.
     + constructor; [exact PK|exact F2].
@@ -260,9 +260,9 @@ Lemma read_sigs_reads fuel : forall cnt s l s', ok s -> read_sigs fuel cnt s = i
 Proof.
   induction fuel as [|f IH]; intros cnt s l s' Hok E.
   - cbn [read_sigs] in E. destruct (cnt =? 0) eqn:Z; [|discriminate].
-    inversion E; subst. apply N.eqb_eq in Z. subst. split; auto. apply reads_refl; exact Hok.
+    inversion E; subst. apply N.eqb_eq in Z. subst. split; [apply reads_refl; exact Hok|reflexivity].
   - cbn [read_sigs] in E. destruct (cnt =? 0) eqn:Z.
-    { inversion E; subst. apply N.eqb_eq in Z. subst. split; auto. apply reads_refl; exact Hok. }
+    { inversion E; subst. apply N.eqb_eq in Z. subst. split; [apply reads_refl; exact Hok|reflexivity]. }
     apply N.eqb_neq in Z.
     destruct (next_varbytes s) as [[[[d sz] irr] e] s1] eqn:EV.
     destruct e; [discriminate|]. destruct irr; [discriminate|].
@@ -298,7 +298,7 @@ Proof.
   destruct (read_sigs (fuel_of s4) (loop_count m) s4) as [[sigs s5]|] eqn:ES; [|discriminate].
   destruct (read_sigs_reads _ _ _ _ _ Hok4 ES) as (R5 & L5).
   inversion E; subst; clear E. cbn [h_u h_bookkeepers h_sigdata a_nkeys a_rawkeys a_nsigs].
-  repeat split; try assumption.
+  split; [|split; [|split; [|split; [|split]]]]; try assumption.
   - repeat (eapply reads_trans; [eassumption|]). assumption.
   - rewrite map_length. exact L3.
   - rewrite !map_length. reflexivity.
@@ -347,11 +347,9 @@ Lemma read_txs_reads (TB : tx_in_bounds) fuel : forall cnt s seen l s', ok s ->
 Proof.
   induction fuel as [|f IH]; intros cnt s seen l s' Hok E.
   - cbn [read_txs] in E. destruct (cnt =? 0) eqn:Z; [|discriminate].
-    inversion E; subst. apply N.eqb_eq in Z. subst. repeat split; auto; try constructor.
-    apply reads_refl; exact Hok.
+    inversion E; subst. apply N.eqb_eq in Z. subst. (split; [apply reads_refl; exact Hok|]); repeat split; auto; try constructor.
   - cbn [read_txs] in E. destruct (cnt =? 0) eqn:Z.
-    { inversion E; subst. apply N.eqb_eq in Z. subst. repeat split; auto; try constructor.
-      apply reads_refl; exact Hok. }
+    { inversion E; subst. apply N.eqb_eq in Z. subst. (split; [apply reads_refl; exact Hok|]); repeat split; auto; try constructor. }
     apply N.eqb_neq in Z.
     destruct (tx_decode (skipn (off s) (buf s))) as [id n|e] eqn:ET; [|discriminate].
     destruct (existsb (bytes_eqb id) seen) eqn:EX; [discriminate|].
@@ -361,7 +359,7 @@ Proof.
     assert (R1 : reads s (mkSrc (buf s) (off s + n)) (slice (buf s) (off s) n)).
     { destruct Hok as [[O _] _]. unfold reads; cbn [buf off]. repeat split; try lia. f_equal. lia. }
     destruct (IH _ _ _ _ _ (reads_ok _ _ _ Hok R1) ER) as (R2 & L2 & N2 & D2).
-    cbn [map fst snd concat length]. repeat split.
+    cbn [map fst snd concat length]. split; [|split; [|split]].
     + eapply reads_trans; eassumption.
     + lia.
     + constructor; [|exact N2]. intro I. apply (D2 id I). left; reflexivity.
@@ -385,7 +383,8 @@ Proof.
   destruct (read_txs tx_decode (fuel_of s2) len s2 []) as [[txs s3]|] eqn:ET; [|discriminate].
   destruct (read_txs_reads TB _ _ _ _ _ _ Hok2 ET) as (R3 & L3 & N3 & _).
   destruct (bytes_eqb (hTransactionsRoot (h_u h)) (merkle_root H (map fst txs))) eqn:ER; [|discriminate].
-  inversion E; subst; clear E. cbn [b_hdr b_txs]. exists s1. repeat split; try assumption.
+  inversion E; subst; clear E. cbn [b_hdr b_txs]. exists s1. split; [|split; [|split]]; try assumption.
+  - reflexivity.
   - replace (N.of_nat (length txs) mod two32) with (N.of_nat (length txs)).
     + eapply reads_trans; eassumption.
     + symmetry. apply N.mod_small. change two32 with (256 ^ N.of_nat UINT32_SIZE). exact B2.
